@@ -246,7 +246,7 @@ pub fn execute(c: &PlaceCase) -> PlaceObs {
     let mut o = PlaceObs { text: text_range(), ..Default::default() };
     ip::plan_reset();
     ip::log_clear();
-    if let TargetSel::RealAsync(k) = &c.target {
+    if let (TargetSel::RealAsync(k), FakeSel::Rust { .. }) = (&c.target, &c.fake) {
         return execute_async(*k, c.callers);
     }
     let reals = targets::real_targets();
@@ -254,7 +254,12 @@ pub fn execute(c: &PlaceCase) -> PlaceObs {
     let mut _target_arena: Option<Arena> = None;
     let mut sibling: Option<usize> = None;
     let target = match &c.target {
-        TargetSel::RealAsync(_) => unreachable!(),
+        TargetSel::RealAsync(k) => {
+            // (with a synthetic fake: the poll function of an async fn, dictated placements)
+            let mut v = targets::async_targets();
+            let i = *k as usize % v.len();
+            v.swap_remove(i)
+        }
         TargetSel::Real(i) => {
             let mut r = reals;
             let i = *i as usize % r.len();
@@ -333,6 +338,23 @@ pub fn execute(c: &PlaceCase) -> PlaceObs {
         if target.class == Class::B {
             // a bool-returning fake: mov eax,1; ret
             a.put_ret_id(fa, 1);
+        } else if target.class == Class::A {
+            // a poll function that is Ready(4242) at once: `mov rax, ..; mov rdx, ..; ret` with the
+            // register image of the value as this compiler lays it out (both the one-register
+            // and the two-register return of a small Poll<T> are satisfied)
+            let (rax, rdx): (u64, u64) = if target.orig == 607 {
+                let img: u64 = unsafe { std::mem::transmute(std::task::Poll::Ready(4242u32)) };
+                (img, 4242)
+            } else {
+                let img: [u64; 2] = unsafe { std::mem::transmute(std::task::Poll::Ready(4242u64)) };
+                (img[0], img[1])
+            };
+            let mut code = vec![0x48u8, 0xB8];
+            code.extend_from_slice(&rax.to_le_bytes());
+            code.extend_from_slice(&[0x48, 0xBA]);
+            code.extend_from_slice(&rdx.to_le_bytes());
+            code.push(0xC3);
+            a.put(fa, &code);
         } else {
             a.put_ret_id(fa, FAKE_ID);
         }
@@ -405,6 +427,27 @@ pub fn execute(c: &PlaceCase) -> PlaceObs {
                     let kinds = targets::legal_kinds(target.class);
                     let kind = if kinds.contains(kind) { *kind } else { kinds[*k as usize % kinds.len()] };
                     targets::install(&mut inj, &target, kind, *k as usize)
+                }
+                FakeSel::Synth { api, .. } | FakeSel::SynthAbs { api, .. } if target.class == Class::A => {
+                    let fa = synth_fake.unwrap();
+                    unsafe {
+                        if target.orig == 607 {
+                            let sig = std::any::type_name::<fn() -> std::task::Poll<u32>>();
+                            if api % 2 == 0 {
+                                inj.when_called_async(injectorpp::async_func!(targets::t_a0(0), u32)).will_return_async(FuncPtr::new(fa as *const (), sig));
+                            } else {
+                                inj.when_called_async_unchecked(injectorpp::async_func_unchecked!(targets::t_a0(0))).will_return_async_unchecked(FuncPtr::new(fa as *const (), ""));
+                            }
+                        } else {
+                            let sig = std::any::type_name::<fn() -> std::task::Poll<u64>>();
+                            if api % 2 == 0 {
+                                inj.when_called_async(injectorpp::async_func!(targets::t_a1(0), u64)).will_return_async(FuncPtr::new(fa as *const (), sig));
+                            } else {
+                                inj.when_called_async_unchecked(injectorpp::async_func_unchecked!(targets::t_a1(0))).will_return_async_unchecked(FuncPtr::new(fa as *const (), ""));
+                            }
+                        }
+                    }
+                    targets::Installed { value: 4242, dest: Some(fa) }
                 }
                 FakeSel::Synth { api, .. } | FakeSel::SynthAbs { api, .. } => {
                     let fa = synth_fake.unwrap();
@@ -484,6 +527,7 @@ pub fn execute(c: &PlaceCase) -> PlaceObs {
         if n > 0 {
             let addr = target.addr;
             let class = target.class;
+            let orig = target.orig;
             let real_call: Option<&(dyn Fn() -> u64)> = None;
             let _ = real_call;
             let vals: Vec<u64> = std::thread::scope(|s| {
@@ -499,7 +543,13 @@ pub fn execute(c: &PlaceCase) -> PlaceObs {
                                     static W: targets::Widget = targets::Widget { v: 7 };
                                     (std::mem::transmute::<usize, fn(&targets::Widget) -> u64>(addr))(&W)
                                 }
-                                Class::A => unreachable!("async targets are placed through RealAsync"),
+                                Class::A => {
+                                    if orig == 607 {
+                                        crate::asyncs::run(targets::t_a0(7)).0 as u64
+                                    } else {
+                                        crate::asyncs::run(targets::t_a1(7)).0
+                                    }
+                                }
                             }
                         })
                     })
@@ -537,6 +587,11 @@ fn rel32_edge() -> impl Strategy<Value = i64> {
 }
 
 pub fn strategy() -> impl Strategy<Value = PlaceCase> {
+    strategy_sel(false)
+}
+
+/// `only_async`: every target is the poll function of an async fn (C14's share of the placements)
+pub fn strategy_sel(only_async: bool) -> impl Strategy<Value = PlaceCase> {
     let off = prop_oneof![
         3 => 0u16..0x1000,
         4 => 0xFF0u16..=0xFFF,
@@ -544,7 +599,7 @@ pub fn strategy() -> impl Strategy<Value = PlaceCase> {
     ];
     let target = prop_oneof![
         2 => (0u8..9).prop_map(TargetSel::Real),
-        1 => (0u8..2).prop_map(TargetSel::RealAsync),
+        if only_async { 1000 } else { 2 } => (0u8..2).prop_map(TargetSel::RealAsync),
         6 => (0u8..5, any::<u64>(), off, prop::bool::weighted(0.25)).prop_map(|(class, page, off, boolean)| TargetSel::Synth { class, page, off, boolean }),
     ];
     let tramp = prop_oneof![
@@ -572,7 +627,9 @@ pub fn strategy() -> impl Strategy<Value = PlaceCase> {
     (target, tramp, fake, prop_oneof![3 => Just(0u8), 1 => 1u8..=4], prior, prop::bool::weighted(0.2)).prop_map(|(target, tramp, fake, callers, prior, early)| {
         // a synthetic fake needs a dictated trampoline; real targets keep the kernel's choice
         let (tramp, fake) = match (&target, tramp, fake) {
-            (TargetSel::RealAsync(_), _, _) => (TrampSel::Kernel, FakeSel::Rust { kind: Kind::Raw, k: 0 }),
+            (TargetSel::RealAsync(_), _, FakeSel::Rust { .. }) => (TrampSel::Kernel, FakeSel::Rust { kind: Kind::Raw, k: 0 }),
+            (TargetSel::RealAsync(_), TrampSel::Kernel, FakeSel::Synth { d, api }) => (TrampSel::Pages((d % 1000) as i32), FakeSel::Synth { d, api }),
+            (TargetSel::RealAsync(_), t, f) => (t, f),
             (TargetSel::Real(_), _, FakeSel::Synth { .. }) => (TrampSel::Kernel, FakeSel::Rust { kind: Kind::Raw, k: 0 }),
             (TargetSel::Real(_), _, f @ FakeSel::SynthAbs { .. }) => (TrampSel::Kernel, f),
             (TargetSel::Real(_), _, f) => (TrampSel::Kernel, f),
